@@ -4,6 +4,504 @@ import FsModel.RefAdm
 import FsProofs.Lemmas.PathLemmas
 
 namespace Fs.QueryLemmas
-open Fs Fs.Ref
+open Fs Fs.Ref Fs.Path
+
+/-! ### unfolding `step` -/
+
+theorem mapM_one (p : Str) :
+    [p].mapM validate = match validate p with | .ok cs => .ok [cs] | .err e => .err e := by
+  unfold List.mapM List.mapM.loop List.mapM.loop
+  cases validate p <;> rfl
+
+theorem mapM_two (a b : Str) :
+    [a, b].mapM validate =
+      match validate a with
+      | .err e => .err e
+      | .ok ca => match validate b with
+        | .err e => .err e
+        | .ok cb => .ok [ca, cb] := by
+  unfold List.mapM List.mapM.loop List.mapM.loop List.mapM.loop
+  cases validate a <;> cases validate b <;> rfl
+
+theorem step_close (s : State) : step s .close = ({ s with closed := true }, .ok .unit) := rfl
+
+theorem step_closed (s : State) (op : Op) (hop : op ≠ .close) (hc : s.closed = true) :
+    step s op = fail s .FilesystemClosed := by
+  cases op <;> first | exact absurd rfl hop | simp [step, hc]
+
+/-- one-path operations other than `openbin` -/
+theorem step_one (s : State) (op : Op) (p : Str) (hc : s.closed = false) (hp : op.paths = [p])
+    (hno : ∀ q m, op ≠ .openbin q m) :
+    step s op = match validate p with
+      | .err e => fail s e
+      | .ok cs => step1 s cs op := by
+  cases op <;> simp only [Op.paths, List.cons.injEq, and_true, reduceCtorEq, and_false] at hp
+  all_goals first
+    | exact absurd rfl (hno _ _)
+    | (subst hp; simp only [step, hc, Op.paths, mapM_one]; cases validate _ <;> rfl)
+
+theorem step_openbin (s : State) (p m : Str) (hc : s.closed = false) :
+    step s (.openbin p m) =
+      if (parseBinMode m).isNone then fail s .ValueError
+      else match validate p with
+        | .err e => fail s e
+        | .ok cs => step1 s cs (.openbin p m) := by
+  simp only [step, hc, Op.paths, mapM_one]
+  cases validate p <;> rfl
+
+theorem step_two (s : State) (op : Op) (a b : Str) (hc : s.closed = false) (hp : op.paths = [a, b]) :
+    step s op = match validate a with
+      | .err e => fail s e
+      | .ok ca => match validate b with
+        | .err e => fail s e
+        | .ok cb => step2 s ca cb op := by
+  cases op <;> simp only [Op.paths, List.cons.injEq, and_true, reduceCtorEq, and_false] at hp
+  all_goals
+    obtain ⟨rfl, rfl⟩ := hp
+    simp only [step, hc, Op.paths, mapM_two]
+    generalize validate _ = va
+    generalize validate _ = vb
+    cases va <;> cases vb <;> rfl
+
+/-! ### the shape of results -/
+
+/-- the shape of a result: the state is untouched, or the call succeeded -/
+def Shape (s : State) (r : State × Out) : Prop :=
+  (∃ o, r = (s, o)) ∨ (∃ t v, r = upd s t v)
+
+theorem shape_fail (s : State) (e : Err) : Shape s (fail s e) := Or.inl ⟨_, rfl⟩
+theorem shape_done (s : State) (v : Val) : Shape s (done s v) := Or.inl ⟨_, rfl⟩
+theorem shape_upd (s : State) (t : Node) (v : Val) : Shape s (upd s t v) := Or.inr ⟨_, _, rfl⟩
+
+theorem Shape.err_state {s : State} {r : State × Out} {e : Err} (h : Shape s r) (he : r.2 = .err e) :
+    r.1 = s := by
+  rcases h with ⟨o, rfl⟩ | ⟨t, v, rfl⟩
+  · rfl
+  · simp [upd] at he
+
+theorem writeFile_shape (s : State) (cs : List Name) (f : Option Bytes → Bytes) (v : Val) :
+    Shape s (writeFile s cs f v) := by
+  simp only [writeFile]
+  repeat' split
+  all_goals first | apply shape_fail | apply shape_done | apply shape_upd
+
+theorem step1_shape (s : State) (cs : List Name) (op : Op) : Shape s (step1 s cs op) := by
+  cases op <;> simp only [step1]
+  all_goals repeat' split
+  all_goals first | apply shape_fail | apply shape_done | apply shape_upd | apply writeFile_shape
+
+theorem step2_shape (s : State) (a b : List Name) (op : Op) : Shape s (step2 s a b op) := by
+  cases op <;> simp only [step2]
+  all_goals repeat' split
+  all_goals first | apply shape_fail | apply shape_done | apply shape_upd 
+
+
+theorem op_cases (op : Op) :
+    op = .close ∨ (∃ p m, op = .openbin p m) ∨
+    (∃ p, op.paths = [p] ∧ ∀ q m, op ≠ .openbin q m) ∨ (∃ a b, op.paths = [a, b]) := by
+  cases op <;> simp [Op.paths]
+
+theorem step_shape (s : State) (op : Op) (hop : op ≠ .close) : Shape s (step s op) := by
+  cases hc : s.closed
+  · rcases op_cases op with rfl | ⟨p, m, rfl⟩ | ⟨p, hp, hno⟩ | ⟨a, b, hp⟩
+    · exact absurd rfl hop
+    · rw [step_openbin s p m hc]
+      split
+      · apply shape_fail
+      · split
+        · apply shape_fail
+        · apply step1_shape
+    · rw [step_one s op p hc hp hno]
+      split
+      · apply shape_fail
+      · apply step1_shape
+    · rw [step_two s op a b hc hp]
+      split
+      · apply shape_fail
+      · split
+        · apply shape_fail
+        · apply step2_shape
+  · rw [step_closed s op hop hc]; apply shape_fail
+
+theorem adm_closed (s : State) (op : Op) (hop : op ≠ .close) (hc : s.closed = true) :
+    adm s op = [.FilesystemClosed] := by
+  cases op <;> first | exact absurd rfl hop | simp [adm, hc]
+
+theorem adm_one (s : State) (op : Op) (p : Str) (hc : s.closed = false) (hp : op.paths = [p])
+    (hno : ∀ q m, op ≠ .openbin q m) :
+    adm s op = match validate p with
+      | .err e => [e]
+      | .ok cs => adm1 s.root cs op := by
+  cases op <;> simp only [Op.paths, List.cons.injEq, and_true, reduceCtorEq, and_false] at hp
+  all_goals first
+    | exact absurd rfl (hno _ _)
+    | (subst hp; simp only [adm, hc, Op.paths, mapM_one, admPath, List.flatMap_cons, List.flatMap_nil, List.append_nil]; generalize validate _ = v; cases v <;> simp)
+
+theorem adm_openbin (s : State) (p m : Str) (hc : s.closed = false) :
+    adm s (.openbin p m) = match validate p with
+      | .err e => if (parseBinMode m).isNone then [.ValueError, e] else [e]
+      | .ok cs => adm1 s.root cs (.openbin p m) := by
+  simp only [adm, hc, Op.paths, mapM_one, admPath, List.flatMap_cons, List.flatMap_nil, List.append_nil]; generalize validate _ = v; cases v <;> simp
+
+theorem adm_two (s : State) (op : Op) (a b : Str) (hc : s.closed = false) (hp : op.paths = [a, b]) :
+    adm s op = match validate a, validate b with
+      | .err ea, .err eb => [ea, eb]
+      | .err ea, .ok cb => ea :: admAny s.root cb
+      | .ok ca, .err eb => eb :: admAny s.root ca
+      | .ok ca, .ok cb => adm2 s.root ca cb op := by
+  cases op <;> simp only [Op.paths, List.cons.injEq, and_true, reduceCtorEq, and_false] at hp
+  all_goals
+    obtain ⟨rfl, rfl⟩ := hp
+    simp only [adm, hc, Op.paths, mapM_two, admPath, List.flatMap_cons, List.flatMap_nil, List.append_nil]
+    generalize validate _ = va
+    generalize validate _ = vb
+    cases va <;> cases vb <;> simp
+
+/-! ### truthfulness of errors on valid paths -/
+
+theorem blocked_of_parent_file (t : Node) (b : Bytes) : ∀ (cs pre : List Name), cs ≠ [] →
+    t.get (pre ++ parentOf cs) = some (.file b) → blockedByFile t pre cs = true := by
+  intro cs
+  induction cs with
+  | nil => intro pre h; exact absurd rfl h
+  | cons c r ih =>
+    intro pre _ hg
+    cases r with
+    | nil => simp [parentOf] at hg; simp [blockedByFile, hg]
+    | cons d r' =>
+      have : blockedByFile t (pre ++ [c]) (d :: r') = true := by
+        apply ih _ (by simp)
+        simpa [parentOf, List.dropLast] using hg
+      rw [blockedByFile, this]; simp
+
+theorem step1_truthful (s : State) (cs : List Name) (op : Op) (e : Err)
+    (hroot : s.root.isDir = true)
+    (h : (step1 s cs op).2 = .err e) : e ∈ adm1 s.root cs op := by
+  cases op <;> simp only [step1, writeFile] at h
+  all_goals simp only [adm1, admDirArg, admFileArg, admFileTarget, kindAt]
+  all_goals repeat' split at h
+  all_goals try (simp_all [fail, done, upd]; done)
+  · rename_i h1 h2
+    subst h1
+    cases hr : s.root <;> simp_all [Node.get, fail]
+  · rename_i hne _ _ heq
+    have hb := blocked_of_parent_file s.root _ cs [] hne (by simpa using heq)
+    simp_all [fail]
+  · rename_i h1
+    subst h1
+    cases hr : s.root <;> simp_all [Node.get, fail, Node.isDir]
+
+theorem step2_truthful (s : State) (a b : List Name) (op : Op) (e : Err)
+    (h : (step2 s a b op).2 = .err e) : e ∈ adm2 s.root a b op ∨ e = .OperationFailed := by
+  cases op <;> simp only [step2] at h
+  all_goals simp only [adm2, admDirArg, admFileArg, admFileTarget, kindAt]
+  all_goals repeat' split at h
+  all_goals try (simp_all [fail, done, upd]; done)
+  all_goals
+    obtain ⟨o, hb⟩ : ∃ o, Node.get b s.root = o := ⟨_, rfl⟩
+    obtain ⟨o', hpb⟩ : ∃ o, Node.get (parentOf b) s.root = o := ⟨_, rfl⟩
+    rcases o with _ | ⟨_ | _⟩ <;> rcases o' with _ | ⟨_ | _⟩ <;> simp_all [fail]
+
+/-! ### validation errors, membership in `adm` -/
+theorem validate_err (p : Str) (e : Err) (h : validate p = .err e) :
+    (e = .InvalidCharsInPath ∧ '\x00' ∈ p) ∨
+    (e = .IllegalBackReference ∧ Path.normpath p = .err .IllegalBackReference) := by
+  unfold validate at h
+  split at h
+  · next h0 => left; simp_all
+  · right
+    unfold Path.iteratepath at h
+    cases hn : Path.normpath p with
+    | ok q => rw [hn] at h; simp only [PathLemmas.bind_ok] at h; split at h <;> cases h
+    | err e' =>
+      rw [hn] at h
+      have : e' = .IllegalBackReference := by
+        rw [PathLemmas.normpath_eq_specNorm, PathSpec.specNorm] at hn
+        cases hr : PathSpec.resolve (splitSlash p) <;> rw [hr] at hn <;> simp at hn
+        exact hn.symm
+      subst this
+      cases h; exact ⟨rfl, rfl⟩
+
+theorem validate_err_cases (p : Str) (e : Err) (h : validate p = .err e) :
+    e = .InvalidCharsInPath ∨ e = .IllegalBackReference := by
+  rcases validate_err p e h with ⟨h, _⟩ | ⟨h, _⟩ <;> simp [h]
+
+/-- membership in `adm` for an open filesystem, one-path operation -/
+theorem mem_adm_one {s : State} {op : Op} {p : Str} {x : Err} (hc : s.closed = false)
+    (hp : op.paths = [p]) (hno : ∀ q m, op ≠ .openbin q m) (h : x ∈ adm s op) :
+    validate p = .err x ∨ ∃ cs, validate p = .ok cs ∧ x ∈ adm1 s.root cs op := by
+  rw [adm_one s op p hc hp hno] at h
+  cases hv : validate p with
+  | err e => rw [hv] at h; simp at h; simp [h]
+  | ok cs => rw [hv] at h; exact Or.inr ⟨cs, rfl, h⟩
+
+theorem isPrefix_iff (a b : List Name) : isPrefix a b = true ↔ a <+: b := by
+  induction a generalizing b with
+  | nil => simp [isPrefix]
+  | cons x xs ih =>
+    cases b with
+    | nil => simp [isPrefix]
+    | cons y ys => simp [isPrefix, ih, List.cons_prefix_cons]
+
+theorem mode_chars (x : Char) :
+    (x ∈ modeValidChars ∧ x ≠ 't') ↔ x ∈ ['r', 'w', 'x', 'a', 'b', '+'] := by
+  simp only [modeValidChars, List.mem_cons, List.not_mem_nil, or_false]
+  constructor
+  · rintro ⟨h | h | h | h | h | h | h, ht⟩ <;> simp_all
+  · rintro (h | h | h | h | h | h) <;> subst h <;> decide
+
+/-! ### the root stays a directory -/
+
+theorem dir_isDir (es : Ents) : (Node.dir es).isDir = true := rfl
+
+theorem set_isDir (cs : List Name) (t v : Node) : (t.set cs v).isDir = t.isDir := by
+  unfold Node.set
+  split <;> try rfl
+  split <;> rfl
+
+theorem del_isDir (cs : List Name) (t : Node) : (t.del cs).isDir = t.isDir := by
+  unfold Node.del
+  split <;> try rfl
+  split <;> rfl
+
+theorem mkdirs_isDir (cs pre : List Name) (t : Node) : (mkdirs pre cs t).isDir = t.isDir := by
+  induction cs generalizing pre t with
+  | nil => rfl
+  | cons c cs ih =>
+    simp only [mkdirs]
+    rw [ih]
+    split
+    · apply set_isDir
+    · rfl
+
+theorem setAt_dir_isDir (t : Node) (cs : List Name) (m : Ents) (h : t.isDir = true) :
+    (setAt t cs (.dir m)).isDir = true := by
+  unfold setAt; split
+  · rfl
+  · rw [set_isDir]; exact h
+
+theorem step1_root_isDir (s : State) (cs : List Name) (op : Op) (h : s.root.isDir = true) :
+    (step1 s cs op).1.root.isDir = true := by
+  cases op <;> simp only [step1, writeFile]
+  all_goals repeat' split
+  all_goals simp [fail, done, upd, set_isDir, del_isDir, mkdirs_isDir, h, dir_isDir]
+
+theorem step2_root_isDir (s : State) (a b : List Name) (op : Op) (h : s.root.isDir = true) :
+    (step2 s a b op).1.root.isDir = true := by
+  cases op <;> simp only [step2]
+  all_goals repeat' split
+  all_goals simp [fail, done, upd, set_isDir, del_isDir, mkdirs_isDir, setAt_dir_isDir, h]
+
+/-- the root of every reachable state is a directory -/
+theorem step_root_isDir (s : State) (op : Op) (h : s.root.isDir = true) :
+    (step s op).1.root.isDir = true := by
+  cases hc : s.closed
+  · rcases op_cases op with rfl | ⟨p, m, rfl⟩ | ⟨p, hp, hno⟩ | ⟨a, b, hp⟩
+    · exact h
+    · rw [step_openbin s p m hc]
+      split
+      · exact h
+      · split
+        · exact h
+        · exact step1_root_isDir _ _ _ h
+    · rw [step_one s op p hc hp hno]
+      split
+      · exact h
+      · exact step1_root_isDir _ _ _ h
+    · rw [step_two s op a b hc hp]
+      split
+      · exact h
+      · split
+        · exact h
+        · exact step2_root_isDir _ _ _ _ h
+  · by_cases hop : op = .close
+    · subst hop; exact h
+    · rw [step_closed s op hop hc]; exact h
+
+/-! ### tree lemmas -/
+
+theorem lookup_isSome_iff (n : Name) (es : Ents) : (Ents.lookup n es).isSome = true ↔ n ∈ Ents.names es := by
+  induction es with
+  | nil => simp [Ents.lookup, Ents.names]
+  | cons kv es ih =>
+    obtain ⟨k, v⟩ := kv
+    simp only [Ents.lookup, Ents.names, List.map_cons, List.mem_cons]
+    by_cases hk : k = n
+    · simp [hk]
+    · simp only [hk, if_false]
+      rw [ih]
+      constructor
+      · exact Or.inr
+      · rintro (h | h)
+        · exact absurd h.symm hk
+        · exact h
+
+theorem get_append (cs ds : List Name) (t : Node) :
+    t.get (cs ++ ds) = (t.get cs).bind (Node.get ds) := by
+  induction cs generalizing t with
+  | nil => simp [Node.get]
+  | cons c cs ih =>
+    cases t with
+    | file b => simp [Node.get]
+    | dir es =>
+      simp only [List.cons_append, Node.get]
+      cases Ents.lookup c es with
+      | none => rfl
+      | some ch => exact ih ch
+
+theorem get_single_dir (n : Name) (es : Ents) : (Node.dir es).get [n] = Ents.lookup n es := by
+  simp only [Node.get]
+  cases Ents.lookup n es <;> rfl
+
+theorem entsWf_names_nodup (es : Ents) (h : entsWf es = true) : (Ents.names es).Nodup := by
+  induction es with
+  | nil => simp [Ents.names]
+  | cons kv es ih =>
+    obtain ⟨k, v⟩ := kv
+    simp only [entsWf, Bool.and_eq_true] at h
+    obtain ⟨⟨⟨_, hl⟩, _⟩, hes⟩ := h
+    simp only [Ents.names, List.map_cons, List.nodup_cons]
+    refine ⟨?_, ih hes⟩
+    intro hm
+    have := (lookup_isSome_iff k es).2 hm
+    simp_all
+
+theorem lookup_wf (c : Name) (es : Ents) (ch : Node) (h : entsWf es = true)
+    (hl : Ents.lookup c es = some ch) : ch.wf = true := by
+  induction es with
+  | nil => simp [Ents.lookup] at hl
+  | cons kv es ih =>
+    obtain ⟨k, v⟩ := kv
+    simp only [entsWf, Bool.and_eq_true] at h
+    obtain ⟨⟨⟨_, _⟩, hv⟩, hes⟩ := h
+    simp only [Ents.lookup] at hl
+    split at hl
+    · cases hl; exact hv
+    · exact ih hes hl
+
+theorem get_wf (cs : List Name) (t n : Node) (h : t.wf = true) (hg : t.get cs = some n) :
+    n.wf = true := by
+  induction cs generalizing t with
+  | nil => simp [Node.get] at hg; subst hg; exact h
+  | cons c cs ih =>
+    cases t with
+    | file b => simp [Node.get] at hg
+    | dir es =>
+      simp only [Node.get] at hg
+      cases hl : Ents.lookup c es with
+      | none => rw [hl] at hg; cases hg
+      | some ch =>
+        rw [hl] at hg
+        exact ih ch (lookup_wf c es ch (by simpa [Node.wf] using h) hl) hg
+
+/-! ### one-path operations that succeed -/
+
+theorem step_q (s : State) (op : Op) (p : Str) (hp : op.paths = [p])
+    (hno : ∀ q m, op ≠ .openbin q m) :
+    step s op = if s.closed = true then fail s .FilesystemClosed else
+      match validate p with
+      | .err e => fail s e
+      | .ok cs => step1 s cs op := by
+  cases hc : s.closed
+  · rw [step_one s op p hc hp hno, if_neg (by simp)]
+    all_goals rfl
+  · have : op ≠ .close := by rintro rfl; simp [Op.paths] at hp
+    simp [step_closed s op this hc]
+
+theorem step_q_of (s : State) (op : Op) (p : Str) (cs : List Name) (hp : op.paths = [p])
+    (hno : ∀ q m, op ≠ .openbin q m) (hc : s.closed = false) (hv : validate p = .ok cs) :
+    step s op = step1 s cs op := by
+  rw [step_one s op p hc hp hno, hv]
+
+theorem step_q_ok (s : State) (op : Op) (p : Str) (v : Val) (hp : op.paths = [p])
+    (hno : ∀ q m, op ≠ .openbin q m) (h : (step s op).2 = .ok v) :
+    ∃ cs, s.closed = false ∧ validate p = .ok cs := by
+  rw [step_q s op p hp hno] at h
+  cases hc : s.closed
+  · cases hv : validate p with
+    | ok cs => exact ⟨cs, rfl, rfl⟩
+    | err e => rw [hc, hv] at h; simp [fail] at h
+  · rw [hc] at h; simp [fail] at h
+
+/-! ### spellings (C11) -/
+
+section Spellings
+open Fs.PathSpec Fs.PathLemmas
+
+/-- what `normpath p = .ok q` means in component terms -/
+theorem normpath_ok_resolve (p q : Str) (h : normpath p = .ok q) :
+    ∃ cs, Clean cs ∧ resolve (splitSlash p) = some cs ∧ q = mkp (startsWithSlash p) cs := by
+  rw [normpath_eq_specNorm, specNorm] at h
+  cases hr : resolve (splitSlash p) with
+  | none => rw [hr] at h; cases h
+  | some cs =>
+    rw [hr] at h
+    simp only [Res.ok.injEq] at h
+    exact ⟨cs, resolve_result_clean p cs hr, rfl, h.symm⟩
+
+theorem normpath_of_resolve (p : Str) (cs : List Str) (h : resolve (splitSlash p) = some cs) :
+    normpath p = .ok (mkp (startsWithSlash p) cs) := by
+  rw [normpath_eq_specNorm, specNorm, h]; rfl
+
+/-- two spellings with the same resolved components normalise to the same absolute path -/
+theorem norm_abs_of_resolve (p p' : Str) (cs : List Str) (h : resolve (splitSlash p) = some cs)
+    (h' : resolve (splitSlash p') = some cs) :
+    ∃ q q', normpath p = .ok q ∧ normpath p' = .ok q' ∧ abspath q = abspath q' := by
+  have hc := resolve_result_clean p cs h
+  exact ⟨_, _, normpath_of_resolve p cs h, normpath_of_resolve p' cs h',
+    by rw [abspath_mkp hc, abspath_mkp hc]⟩
+
+theorem resolve_of_norm_abs (p p' q q' : Str) (h : normpath p = .ok q) (h' : normpath p' = .ok q')
+    (ha : abspath q = abspath q') :
+    ∃ cs, Clean cs ∧ resolve (splitSlash p) = some cs ∧ resolve (splitSlash p') = some cs := by
+  obtain ⟨cs, hc, hr, rfl⟩ := normpath_ok_resolve p q h
+  obtain ⟨cs', hc', hr', rfl⟩ := normpath_ok_resolve p' q' h'
+  rw [abspath_mkp hc, abspath_mkp hc'] at ha
+  have := mkp_inj hc hc' ha
+  subst this
+  exact ⟨cs, hc, hr, hr'⟩
+
+theorem iteratepath_of_resolve (p : Str) (cs : List Str) (h : resolve (splitSlash p) = some cs) :
+    iteratepath p = .ok cs := by
+  have hc := resolve_result_clean p cs h
+  unfold iteratepath
+  rw [normpath_of_resolve p cs h, bind_ok]
+  simp only [relpath, lstripSlash_mkp hc, pure_eq]
+  by_cases hn : cs = []
+  · subst hn; rfl
+  · have : joinWith '/' cs ≠ [] := fun e => hn ((join_clean_eq_nil_iff hc).1 e)
+    simp [this, splitSlash, splitOn_join_clean hc hn]
+
+/-! resolution of the rewritten spellings -/
+
+theorem resolve_cons_nil (l : List Str) : resolve ([] :: l) = resolve l := by
+  simp [resolve, PathSpec.step]
+
+theorem resolve_cons_dot (l : List Str) : resolve (['.'] :: l) = resolve l := by
+  simp [resolve, PathSpec.step, dot]
+
+theorem resolve_detour (x : Str) (l : List Str) (hx : CleanComp x) :
+    resolve (x :: ['.', '.'] :: l) = resolve l := by
+  obtain ⟨h1, h2, h3, _⟩ := hx
+  simp only [dot, dotdot] at h2 h3
+  simp [resolve, PathSpec.step, h1, h2, h3, dot, dotdot]
+
+theorem resolve_snoc_nil (l : List Str) : resolve (l ++ [[]]) = resolve l := by
+  simp only [resolve, List.foldl_append, List.foldl_cons, List.foldl_nil]
+  cases List.foldl PathSpec.step (some []) l <;> simp [PathSpec.step]
+
+theorem splitOn_snoc_sep (c : Char) (p : Str) : splitOn c (p ++ [c]) = splitOn c p ++ [[]] := by
+  induction p with
+  | nil => simp [splitOn]
+  | cons x xs ih =>
+    by_cases hx : x = c
+    · subst hx; rw [List.cons_append, splitOn_cons_sep, splitOn_cons_sep, ih]; rfl
+    · rw [List.cons_append, splitOn_cons_ne c x _ hx, splitOn_cons_ne c x _ hx, ih]
+      have := splitOn_ne_nil c xs
+      cases hs : splitOn c xs with
+      | nil => exact absurd hs this
+      | cons a b => simp
+
+end Spellings
 
 end Fs.QueryLemmas
